@@ -138,9 +138,10 @@ func runC09(p *Program, r *Report) {
 	for _, m := range []struct {
 		r string
 		n int
-	}{{"C09.R1", 20}, {"C09.R2", 4}} {
+	}{{"C09.R1", 20}, {"C09.R2", 4}, {"C09.R5", 1}} {
 		r.Min(m.r, m.n)
 	}
+	checkNoSharedErrorMutation(p, r, "C09.R5")
 	tsp := p.SSAPkg("template")
 	pv := NewProv(p)
 	pv.NoInline = true
@@ -489,5 +490,42 @@ func checkNoReentrantLock(p *Program, r *Report, rule string) {
 	}
 	if n == 0 {
 		r.Undec(rule, "template#locking-calls", "", "no call to a locking function found")
+	}
+}
+
+// checkNoSharedErrorMutation (C09.R5): *Error values are handed out to callers and kept in
+// the memo of analysed templates by pointer. Writing a field of an *Error that was not
+// allocated in the same function changes an error another goroutine may be formatting
+// (and the text of errors returned earlier).
+func checkNoSharedErrorMutation(p *Program, r *Report, rule string) {
+	tsp := p.SSAPkg("template")
+	n := 0
+	for _, f := range p.SrcFuncs() {
+		if f.Pkg != tsp && !(f.Parent() != nil && f.Parent().Pkg == tsp) {
+			continue
+		}
+		for _, b := range f.Blocks {
+			for _, in := range b.Instrs {
+				st, ok := in.(*ssa.Store)
+				if !ok {
+					continue
+				}
+				fa, ok := st.Addr.(*ssa.FieldAddr)
+				if !ok {
+					continue
+				}
+				pt, ok := fa.X.Type().Underlying().(*types.Pointer)
+				if !ok || !isNamed(pt.Elem(), pkgTemplate, "Error") {
+					continue
+				}
+				n++
+				c := fmt.Sprintf("%s#error-write:%s", strings.TrimPrefix(fnName(f), pkgTemplate+"."), fieldName(fa.X.Type(), fa.Field))
+				_, fresh := fa.X.(*ssa.Alloc)
+				r.Check(fresh, rule, c, p.Pos(st.Pos()), "writes a field of an Error allocated in the same function", "a field of an *Error that was created elsewhere (held by the memo of analysed templates and by errors returned earlier) is overwritten: the text of an error already handed to a caller changes, unsynchronised with that caller")
+			}
+		}
+	}
+	if n == 0 {
+		r.OK(rule, "template#no-error-field-writes", "", "no function writes a field of an Error")
 	}
 }
